@@ -246,14 +246,15 @@ def evaluate__instance_expression(self: XPathToken, context: ta.ContextType = No
         if context is None:
             raise self.missing_context()
 
-        for position, context.item in enumerate(self[0].select(context)):
-            if context.axis is None:
-                context.axis = 'self'
+        item_context = copy(context)  # the operand is evaluated lazily with the caller's focus
+        for position, item_context.item in enumerate(self[0].select(context)):
+            if item_context.axis is None:
+                item_context.axis = 'self'
 
-            result = self[1].evaluate(context)
+            result = self[1].evaluate(item_context)
             if isinstance(result, list) and not result:
-                return isinstance(context.item, XPathFunction) and \
-                    context.item.name == XSD_ERROR
+                return isinstance(item_context.item, XPathFunction) and \
+                    item_context.item.name == XSD_ERROR
             elif position and occurs in ('', '?'):
                 return False
         else:
